@@ -187,7 +187,7 @@ INVALID_ADDR6 = [b"", b"1.2.3.4", b"::1::", b"1::2::3", b"12345::", b"g::", b"::
                  b"::1.2.3", b"::1.2.3.4.5", b"1.2.3.4::", b"::01.2.3.4", b"1:2:3:4:5:6:7:1.2.3.4", b"::ffff:256.1.1.1", b"::%eth0", b"[::1]", b"::1 ", b"0ffff::",
                  b"1:2:3:4:5:6:1.2.3.4:8", b"::1\n", b"\xc3\xa9::"]
 INVALID_PORT = [b"", b"+80", b"-0", b"-1", b"080", b"00", b"65536", b"99999", b"100000", b"8o", b"0x50", b" 80", b"80\n", b"1e3", b"+", b"-", b"+0", b"4294967376", b"\xd9\xa1"]
-LINE_ENDINGS = [b"\r\n", b"\r", b"\n", b" \n", b"", b"\rX", b"\r\r", b"\r\xc3\xa9", b"\r\xe2\x82\xac", b"\n\r", b"\r \n", b" \r\n", b"\r\n\r\n", b"\r\x00"]
+LINE_ENDINGS = [b" \n\r\n", b" \n x\r\n", b" \n \r\n", b"\n\r\n", b" \n GET / HTTP/1.1\r\n", b" \r\n\r\n", b" x\r\n", b"\r\n", b"\r", b"\n", b" \n", b"", b"\rX", b"\r\r", b"\r\xc3\xa9", b"\r\xe2\x82\xac", b"\n\r", b"\r \n", b" \r\n", b"\r\n\r\n", b"\r\x00"]
 TRAILERS = [b"", b"GET / HTTP/1.1\r\n", b"PROXY TCP4 1.1.1.1 2.2.2.2 1 2\r\n", b"\r\n", b"\n", b"\r", b"\x00", b"0", b"5", b" ", b"\x0d\x0a\x0d\x0a\x00\x0d\x0a\x51\x55\x49\x54\x0a", b"\xff\xfe", b"\xc3\xa9"]
 
 
